@@ -141,14 +141,18 @@ pub fn check_cwe(
     'functions: for sub in project.program.term.subs.values() {
         // Function call allocation case
         for (_, jump, symbol) in get_callsites(sub, &symbol_map) {
-            if let Some(interval) = match symbol.name.as_str() {
-                "calloc" => multiply_args_for_calloc(
-                    pir,
-                    &jump.tid,
-                    vec![&symbol.parameters[0], &symbol.parameters[1]],
-                ),
-                "realloc" => pir.eval_parameter_arg_at_call(&jump.tid, &symbol.parameters[1]),
-                _ => pir.eval_parameter_arg_at_call(&jump.tid, &symbol.parameters[0]),
+            // Ghidra may not be supplying (complete) parameter information for the symbol.
+            if let Some(interval) = match (symbol.name.as_str(), symbol.parameters.as_slice()) {
+                ("calloc", [count_param, size_param, ..]) => {
+                    multiply_args_for_calloc(pir, &jump.tid, vec![count_param, size_param])
+                }
+                ("calloc", _) => None,
+                ("realloc", [_, size_param, ..]) => {
+                    pir.eval_parameter_arg_at_call(&jump.tid, size_param)
+                }
+                ("realloc", _) => None,
+                (_, [size_param, ..]) => pir.eval_parameter_arg_at_call(&jump.tid, size_param),
+                (_, []) => None,
             } {
                 if exceeds_threshold_on_call(interval, config.heap_threshold) {
                     cwe_warnings.push(generate_cwe_warning(&jump.tid, false));
